@@ -29,73 +29,6 @@ Definition pok (cn hi ho : bool) (x : option pstate) : bool :=
 Definition SL (s : st) : Prop := forall p, pok (conn s p) (hsI s p) (hsO s p) (ps s p) = true.
 
 (* full case split of a handler equation M : handler ... = Some (s1, ev, cl) *)
-(* what a change of the task list may do: tasks keep their id and peer, tasks with other ids stay *)
-Definition tasks_sub (k : N) (old new : list task) : Prop :=
-  (forall t', In t' new -> exists t, In t old /\ t_id t' = t_id t /\ t_peer t' = t_peer t) /\
-  (forall t, In t old -> t_id t <> k -> In t new).
-
-Lemma tasks_sub_refl k l : tasks_sub k l l.
-Proof. split; eauto. Qed.
-
-Lemma tasks_sub_map k f l :
-  (forall t, t_id (f t) = t_id t /\ t_peer (f t) = t_peer t) -> tasks_sub k l (map_task k f l).
-Proof.
-  intros Hf. unfold map_task. split.
-  - intros t' H. apply in_map_iff in H. destruct H as (t & E & Ht). exists t. split; auto.
-    destruct (t_id t =? k); subst; auto.
-  - intros t Ht Hne. apply in_map_iff. exists t. split; auto.
-    destruct (t_id t =? k) eqn:E; auto. apply N.eqb_eq in E. contradiction.
-Qed.
-
-Lemma tasks_sub_remove k l : tasks_sub k l (remove_task k l).
-Proof.
-  split.
-  - intros t' H. apply in_remove in H. exists t'. tauto.
-  - intros t Ht Hne. apply in_remove. tauto.
-Qed.
-
-Lemma signal_core s k s' ev : signal s k = (s', ev) ->
-  exists l, s' = set_tasks s l /\ tasks_sub k (tasks s) l /\
-            (ev = [] \/ exists t, find_task k (tasks s) = Some t /\ ev = [UClosed (t_peer t)]).
-Proof.
-  unfold signal. destruct (find_task k (tasks s)) as [t|] eqn:F.
-  - destruct (t_closing t); [|destruct (t_gated t)]; intros H; injection H as <- <-.
-    + exists (tasks s). split; [destruct s; reflexivity|]. split; auto using tasks_sub_refl.
-    + eexists. split; [reflexivity|]. split; auto. apply tasks_sub_map. intros; auto.
-    + eexists. split; [reflexivity|]. split; eauto using tasks_sub_remove.
-  - intros H; injection H as <- <-. exists (tasks s). split; [destruct s; reflexivity|].
-    split; auto using tasks_sub_refl.
-Qed.
-
-Ltac setters_in M :=
-  cbn [ps pend hsI hsO hopen hval conn dead nsid spend tasks ntask lastt timers narm set_timers arm
-       set_ps set_pend set_hsI set_hsO set_hopen set_hval set_conn set_dead set_nsid set_spend set_tasks spawn_task] in M;
-  rewrite ?upd_same in M.
-
-(* full case split of handler equations in the context (innermost scrutinee first) *)
-Ltac split_all :=
-  repeat match goal with
-         | E : None = Some _ |- _ => discriminate E
-         | E : Some _ = None |- _ => discriminate E
-         | E : Some _ = Some _ |- _ => inversion E; subst; clear E
-         | E : (_, _) = (_, _) |- _ => inversion E; subst; clear E
-         | M : context [signal ?a ?k] |- _ =>
-             let Sg := fresh "Sg" in let tl := fresh "tl" in let ss := fresh "ss" in let se := fresh "se" in
-             destruct (signal a k) as [ss se] eqn:Sg; apply signal_core in Sg; destruct Sg as (tl & -> & ? & ?)
-         | M : context [match ?x with _ => _ end] |- _ =>
-             lazymatch x with
-             | context [match _ with _ => _ end] => fail
-             | _ => destruct x eqn:?; setters_in M
-             end
-         end.
-
-Ltac unfold_handlers M :=
-  cbn [main_handler] in M;
-  unfold on_established, on_open, on_closed, on_sub_out, on_sub_in, on_open_fail, on_dial_fail, on_close,
-         on_validation, on_hs_out_ok, on_hs_in_ok, on_hs_err, on_timer, hs_finish, svc_open, svc_force,
-         task_die_op, ok, ok_ev in M;
-  setters_in M.
-
 Ltac peer_facts H p :=
   let K := fresh "K" in
   pose proof (H p) as K; unfold pok in K;
@@ -371,7 +304,7 @@ Proof.
       * destruct (drain s t) as [[a b] c0] eqn:E. intros H; injection H as <- _ _. eapply IH; eauto.
       * intros H. apply IH in H. exact H.
     + intros H. apply IH in H. exact H.
-    + destruct (drain (set_hopen s p false) t) as [[a b] c0] eqn:E. intros H; injection H as <- _ _.
+    + destruct (drain (set_hsink (set_hopen s p false) p None) t) as [[a b] c0] eqn:E. intros H; injection H as <- _ _.
       apply IH in E. exact E.
     + intros H. eapply IH; eauto.
     + intros H. eapply IH; eauto.
@@ -460,7 +393,7 @@ Proof.
       * destruct (drain s t) as [[a b] c0] eqn:E. intros H; injection H as <- _ _. eapply IH; eauto.
       * intros H. apply IH in H. exact H.
     + intros H. apply IH in H. exact H.
-    + destruct (drain (set_hopen s p false) t) as [[a b] c0] eqn:E. intros H; injection H as <- _ _.
+    + destruct (drain (set_hsink (set_hopen s p false) p None) t) as [[a b] c0] eqn:E. intros H; injection H as <- _ _.
       apply IH in E. exact E.
     + intros H. eapply IH; eauto.
     + intros H. eapply IH; eauto.
